@@ -30,8 +30,8 @@ _TB = ('Trusted: contracts/preamble.rs (std items without vstd specs, derived Cl
        'Every assumption of the run is listed in evidence.coverage.trusted_base; everything not decided in evidence.coverage.not_decided.')
 META = {
     'C01': dict(engine='verus+kani', design_ref='0, 3.5, 6', technique='contract-based deductive verification: Verus panic-freedom/termination obligations on the real functions; Kani function proofs on the i64 leaves and builtin dispatch',
-                text='Panic-freedom and termination are obligations of every exec function Verus verifies (unwrap, unreachable!, indexing, str slicing, integer overflow are failed preconditions): operator evaluation, both evaluators and all wrappers, the tree builder (stack-shape invariant discharges both unreachable!()s), both tokenizer stages, the contexts, the explicit builtins, NodeIter. i64 leaves and macro-generated builtins by loop-free Kani harnesses over all payloads. Unbounded for the functions under contract.',
-                note=_TB + ' Not decided: Display/Debug formatting, stack depth, the identifier-filter closures, OperatorIterMut, IterateVariablesContext impls.'),
+                text='Panic-freedom and termination are obligations of every exec function Verus verifies (unwrap, unreachable!, indexing, str slicing, integer overflow are failed preconditions): operator evaluation, both evaluators and all wrappers, the tree builder (stack-shape invariant discharges both unreachable!()s), both tokenizer stages, the contexts, the explicit builtins, NodeIter and the erased OperatorIterMut, the six Display bodies (copies with write!/format! replaced by opaque calls). A function whose proof text is lost on a changed tree is probed once more with its contract only: a failed panic-freedom obligation whose panic is reproduced on the real crate is reported. i64 leaves and macro-generated builtins by loop-free Kani harnesses over all payloads. Unbounded for the functions under contract.',
+                note=_TB + ' The Display bodies, the identifier-filter closure bodies, OperatorIterMut and the iter_variables closure are verified on mechanical copies (X19-X22). Not decided: the formatting machinery itself and derived Debug, stack depth (recursion), iter_variable_names.'),
     'C02': dict(engine='verus', design_ref='0, 4', technique='contract-based deductive verification (Verus): table contracts, insertion contract ins_ok/ins_post, token-mapping obligation, yield lemma, token conservation',
                 text='Precedence/arity/associativity and token-class tables proved equal to the documented table; insert_back_prioritized proved to place each node exactly where precedence climbing puts it (free slot / rotation / descent by binds_into); the node created for each token proved to be op_of(token, previous-token-can-end-an-operand, next token); spec-level theorem: a successful insertion extends the in-order yield on the right; token conservation: the tree accounts for every token other than a parenthesis exactly once (w_node(tree) == ntok(tokens)); each builder step pinned by ins_step (the node goes into the element being parsed, nothing else moves).',
                 note=_TB + ' The whole-grammar uniqueness theorem (one tree per token sequence) is not mechanised; the per-step contracts are.'),
